@@ -119,6 +119,15 @@ for _cd in list(_REG.get("C04", [])):
         contract(P, _cd.name, list(_cd.targets), min_obligations=_cd.min_obligations)(_cd.fn)
 
 
+# link (2'): _synparam_at consumes RecordTensor.select BY CONTRACT; the contract itself - the tensor-time select with any
+# number of query times per element, which is what a connection's per-synapse delays ask for - is proved in C02 and is an
+# obligation of this property too, so that a change inside select is reported here as well
+from . import c02_select as _c02  # noqa: E402,F401
+
+for _cd in list(_REG.get("C02", [])):
+    if _cd.name in ("RecordTensor.select[tensor,many times per element]", "RecordTensor.select/insert[default offset]") and not any(x.name == _cd.name for x in _REG.get(P, [])):
+        contract(P, _cd.name, list(_cd.targets), min_obligations=_cd.min_obligations)(_cd.fn)
+
 MUTANTS = [
     dict(file="inferno/neural/synapses/expcurrent.py", func="DoubleExponentialCurrent.current_at", old="bounded_selector = selector.clamp(min=0, max=self.spike_.duration)", new="bounded_selector = selector.clamp(min=0, max=self.spike_.dt)", contracts=["DoubleExponentialCurrent.current_at"], name="seed C06f: delays of the double-exponential synapse clamped to one step"),
     dict(file=c05.CONV, func="Conv2D.selector", old='"f c h w -> 1 (c h w) 1 f"', new='"f c h w -> 1 (c w h) 1 f"', contracts=["Conv2D.layouts"], name="seed C06d: delay selector flattens the kernel as (c w h)"),
